@@ -820,7 +820,9 @@ pub fn c16_fields(next: &mut dyn FnMut() -> u64) -> Fields {
         let (ty, tag) = if explicit || untagged.is_empty() {
             let ty = tagged[(next() % tagged.len() as u64) as usize].clone();
             let class = next() % 4;
-            let mut number = (next() % 12) as u32;
+            // (also numbers beyond 30 / 63 / 127: orderings that look at one identifier octet or at a
+            // truncated number wrap there)
+            let mut number = (next() % 12) as u32 + [0u32, 0, 0, 64, 120, 1000][(next() % 6) as usize];
             let mut t;
             loop {
                 t = match class {
